@@ -95,46 +95,64 @@ example : let s := run 4 4 (stages 4) (init 1) (twoResponses ++ [.tick, .tick])
 example : (runStages (stages 4) (run 4 4 (stages 4) (init 1) (twoResponses ++ [.tick])).core).2 = false := by decide
 
 end Drv
-/-! ### a memory-copy command whose flush response arrives last never completes (defect, not repaired) -/
+/-! ### a memory-copy command completes whichever response arrives last (repaired by a `fix:` commit) -/
 namespace Copy
 
-/-- full statement: once every request of a running memory-copy command has been answered — in
-    whatever order — the command has been dequeued -/
-def memcopy_completes_full : Prop :=
-  ∀ (nf nc : Nat) (o : List RKind), 0 < nc → validOrder nf nc o → (run nf nc o).queued = false
+/-- **A memory-copy command always completes (repaired code).** Once every request of a running
+    memory-copy command — the `FlushReq`s to all GPUs and the copy requests — has been answered, in
+    WHATEVER order the responses arrive, the command has been dequeued (`IsRunning` cleared), so a
+    `DrainCommandQueue` on its queue is not left waiting. -/
+theorem memcopy_completes_full (nf nc : Nat) (o : List RKind) (hne : o ≠ []) (h : validOrder nf nc o) :
+    (run nf nc o).queued = false := by
+  obtain ⟨hf, hc⟩ := h
+  obtain ⟨pre, last, rfl⟩ : ∃ pre last, o = pre ++ [last] := by
+    rcases List.eq_nil_or_concat o with h | ⟨pre, last, h⟩
+    · exact absurd h hne
+    · exact ⟨pre, last, by simpa using h⟩
+  obtain ⟨h1, h2⟩ := run_counts pre { f := nf, c := nc }
+  simp only [run, List.foldl_append, List.foldl_cons, List.foldl_nil]
+  cases last
+  · simp only [List.count_append, List.count_cons_self, List.count_nil] at hf
+    have hc' : pre.count .copy = nc := by simpa [List.count_append, List.count_cons] using hc
+    simp only [deliver, h1, h2, hc']
+    simp
+    intro _; omega
+  · simp only [List.count_append, List.count_cons_self, List.count_nil] at hc
+    have hf' : pre.count .flush = nf := by simpa [List.count_append, List.count_cons] using hf
+    simp only [deliver, h1, h2, hf']
+    simp
+    intro _; omega
 
-/-- **Refuted on the current code.** 2 GPUs (one `FlushReq` each), one copy request; responses in
-    the order flush, copy, flush: `processFlushReturn` only removes the request, so after the last
-    response the command is still queued with `IsRunning` set — the driver sleeps and every
-    `DrainCommandQueue` on that queue waits forever. Reproduced on the real `Driver.Tick`
-    (`harness/c12_deep.go`, oracle `C12.driver.memcopy-flush-last`). -/
-theorem memcopy_completes_full_refuted : ¬ memcopy_completes_full := by
+/-- **… and never early.** While fewer responses than requests have been processed the command is
+    still queued (the drain does not return before the copy is complete). -/
+theorem memcopy_not_completed_early (nf nc : Nat) (l : List RKind) (h : l.length < nf + nc) :
+    (run nf nc l).queued = true :=
+  stays_queued l { f := nf, c := nc } h rfl
+
+/-- the full statement for the code BEFORE the fix (`processFlushReturn` only removed the request) -/
+def memcopy_completes_full_before_fix : Prop :=
+  ∀ (nf nc : Nat) (o : List RKind), 0 < nc → validOrder nf nc o → (runOld nf nc o).queued = false
+
+/-- **Pre-fix defect (documentation, about `runOld` only).** 2 GPUs (one `FlushReq` each), one copy
+    request; responses in the order flush, copy, flush: after the last response the command was
+    still queued with `IsRunning` set — the driver slept and every `DrainCommandQueue` on that queue
+    waited forever. Found on the real `Driver.Tick`, repaired by the `fix:` commit; the scenario is
+    replayed by `harness/c12_deep.go` (oracle `C12.driver.memcopy-flush-last`). -/
+theorem memcopy_completes_full_before_fix_refuted : ¬ memcopy_completes_full_before_fix := by
   intro h
   have := h 2 1 [.flush, .copy, .flush] (by decide) (by decide)
   exact absurd this (by decide)
 
-/-- **Partial (what holds).** If the LAST response is a copy response, the command is dequeued. -/
-theorem memcopy_completes_partial (nf nc : Nat) (pre : List RKind) (h : validOrder nf nc (pre ++ [.copy])) :
-    (run nf nc (pre ++ [.copy])).queued = false := by
-  obtain ⟨hf, hc⟩ := h
-  simp only [List.count_append, List.count_cons_self, List.count_nil] at hf hc
-  have hf' : pre.count .flush = nf := by simpa [List.count_cons] using hf
-  obtain ⟨h1, h2⟩ := run_counts pre { f := nf, c := nc }
-  simp only [run, List.foldl_append, List.foldl_cons, List.foldl_nil, deliver]
-  rw [h1, h2]
-  simp only [hf']
-  have : nc - pre.count .copy - 1 = 0 := by omega
-  simp [this]
-
-/-- **Exactly when it fails.** If the last response is a flush response, the command stays queued. -/
-theorem memcopy_stuck_when_flush_last (nf nc : Nat) (pre : List RKind) (h : validOrder nf nc (pre ++ [.flush])) :
-    (run nf nc (pre ++ [.flush])).queued = true := by
+/-- before the fix the command stayed queued exactly when the last response was a flush response -/
+theorem memcopy_stuck_when_flush_last_before_fix (nf nc : Nat) (pre : List RKind) (h : validOrder nf nc (pre ++ [.flush])) :
+    (runOld nf nc (pre ++ [.flush])).queued = true := by
   obtain ⟨hf, _⟩ := h
   simp only [List.count_append, List.count_cons_self, List.count_nil] at hf
-  simp only [run, List.foldl_append, List.foldl_cons, List.foldl_nil, deliver]
-  exact stays_queued pre { f := nf, c := nc } (by simp only; omega) rfl
+  simp only [runOld, List.foldl_append, List.foldl_cons, List.foldl_nil, deliverOld]
+  exact stays_queued_old pre { f := nf, c := nc } (by simp only; omega) rfl
 
-example : validOrder 2 1 [.flush, .flush, .copy] ∧ (run 2 1 [.flush, .flush, .copy]).queued = false := by decide
+example : validOrder 2 1 [.flush, .copy, .flush] ∧ (run 2 1 [.flush, .copy, .flush]).queued = false ∧
+    (run 2 1 [.flush, .copy]).queued = true ∧ (runOld 2 1 [.flush, .copy, .flush]).queued = true := by decide
 
 end Copy
 
